@@ -16,6 +16,11 @@ WINDOWS = ["zombie", "sdlag", "commit", "late", "sdspawn", "dup", "stale"]   # m
 WINDOW_FINDING = {"commit": "F20/F21", "late": "F26", "sdspawn": "F22", "dup": "F25", "stale": "F32", "sdlag": "F37", "zombie": "F38"}
 
 
+# C05 (an unsatisfied dependency => never launched) is the negative side of C01: the C01 monitor decides on its
+# own, from the dependency's observed end and exit code, whether a launch was justified.
+EXTRA_MONITORS = {"C05": ["C01"]}
+
+
 def win_names(code):
     return [WINDOWS[k] for k in range(len(WINDOWS)) if code & (1 << (len(WINDOWS) - 1 - k))]
 
@@ -69,6 +74,12 @@ def run(ctx, pid, kinds, n_quick, n_thorough, polite=60, extra_assumptions=()):
             bad += [base + i for i in res[key]]
             for i, w in zip(res[key], res.get("r_badw_" + pid, [])):
                 badw[base + i] = w
+            for extra in EXTRA_MONITORS.get(pid, []):
+                # a history that violates the companion monitor is a violation of this property as well
+                for i, w in zip(res.get("r_bad_" + extra, []), res.get("r_badw_" + extra, [])):
+                    if base + i not in badw:
+                        bad.append(base + i)
+                        badw[base + i] = w
             wcodes += res["r_windows"]
             if ctx.replay:
                 break
